@@ -29,6 +29,7 @@ Facts ==
 TAdd == /\ Ev.op = "add" /\ size' = MinI(size + Ev.w, N) /\ ptr' = (ptr + Ev.w) % N
         /\ Check("new transitions get the highest priority seen so far", Ev.newmax_ok)
         /\ Facts
+TClear == /\ Ev.op = "clear" /\ size' = 0 /\ ptr' = 0 /\ Facts
 TUpdate == /\ Ev.op = "update" /\ UNCHANGED <<size, ptr>>
            /\ Check("updated priorities are stored as max(p, eps)^alpha", Ev.upd_ok)
            /\ Facts
@@ -44,7 +45,7 @@ TSample == /\ Ev.op = "sample" /\ UNCHANGED <<size, ptr>>
            /\ Facts
 
 TAccept == /\ l = Len(T.ev) + 1 /\ PrintT(<<"ACCEPT", tid>>) /\ l' = l + 1 /\ UNCHANGED <<N, size, ptr, tid>>
-TNext == \/ (l <= Len(T.ev) /\ (TAdd \/ TUpdate \/ TSample) /\ l' = l + 1 /\ UNCHANGED <<N, tid>>)
+TNext == \/ (l <= Len(T.ev) /\ (TAdd \/ TClear \/ TUpdate \/ TSample) /\ l' = l + 1 /\ UNCHANGED <<N, tid>>)
          \/ TAccept
 TSpec == TInit /\ [][TNext]_vars
 SizeOK == size \in 0..N /\ ptr \in 0..(N - 1)
